@@ -403,6 +403,7 @@ protected:
 	sender_comp_id _sci; // used by acceptor
 	Connection *_connection;
 	unsigned _req_next_send_seq, _req_next_receive_seq;
+	unsigned _resend_highest = 0; // highest inbound number seen while a resend request is outstanding
 	SessionID _sid;
 	struct SessionConfig *_sf;
 
